@@ -7,6 +7,7 @@ say that each transcription computes `treeHash` of the value the node denotes (`
 for every node (all sizes, all sharing patterns).  Lemmas live in `ClvmProofs/Lemmas/TreeHash*.lean`.
 -/
 import ClvmProofs.Lemmas.TreeHash
+import ClvmProofs.Lemmas.TreeHashCache
 
 namespace Clvm.Props.C22
 open Clvm Clvm.Hash Clvm.TreeHash
@@ -72,5 +73,44 @@ theorem op_eq_treeHash (newModel : Bool) (budget : Nat) (i : Nat) (n term : NTre
       if costSpec newModel n.erase ≤ budget then .ok (costSpec newModel n.erase, treeHash n.erase)
       else .error .CostExceeded := by
   rw [opSha256Tree_eq _ _ _ _ _ hterm, treeHashCosted_eq _ _ _ hv]
+
+/-- `ObjectCache::new(treehash).get_or_calculate(a, node, None)`: for every node whose identities are
+consistent (equal `NodePtr` ⇒ equal value — true in every allocator), whatever the sharing, the
+result is `Some(tree hash)`; the fuel of the model is never exhausted and no `panic!` is reached. -/
+theorem objectCache_eq_treeHash (t : NTree) (hv : t.Valid) (hc : Consistent t) :
+    objectCacheTreeHash t = .ok (some (treeHash t.erase)) := by
+  obtain ⟨H, hg⟩ := consistent_good hc
+  obtain ⟨c', e, _⟩ := ocGetOrCalculate_eq t hv hg [] (cacheOK_nil H)
+  simp [objectCacheTreeHash, e]
+
+/-- …and a cache may be reused: starting from any cache whose bindings are right, the result is the
+tree hash and the cache afterwards is right again (work-list order: right child, left child, node). -/
+theorem objectCache_reuse (H : Nat → Bytes) (t : NTree) (hv : t.Valid) (hg : Good H t) (c : Cache)
+    (hc : CacheOK H c) :
+    ∃ c', ocGetOrCalculate c t none = .ok (some (treeHash t.erase), c') ∧ CacheOK H c' :=
+  ocGetOrCalculate_eq t hv hg c hc
+
+/-- `InternedTree::tree_hash` of a consistent interned tree is the tree hash of the value it denotes -/
+theorem internedTreeHash_eq_treeHash (root : NTree) (hv : root.Valid) (hc : Consistent root) :
+    internedTreeHash root = .ok (treeHash root.erase) := by
+  obtain ⟨H, hg⟩ := consistent_good hc
+  obtain ⟨c', e, _⟩ := ocGetOrCalculate_eq root hv hg [] (cacheOK_nil H)
+  simp [internedTreeHash, e]
+
+/-- Python `Treehasher.sha256_treehash` (prefixes 01 / 02): for every object graph with consistent
+identities, every set of objects that accept the `_cached_sha256_treehash` attribute (`settable`), and
+every pre-existing set of correct cached attributes, the result is the tree hash, no `IndexError` is
+reached, and the attributes afterwards are correct. -/
+theorem python_eq_treeHash (settable : Nat → Bool) (H : Nat → Bytes) (t : NTree) (hv : t.Valid)
+    (hg : Good H t) (attrs : Cache) (hc : CacheOK H attrs) :
+    ∃ attrs', pySha256Treehash settable attrs t = .ok (treeHash t.erase, attrs') ∧ CacheOK H attrs' :=
+  pySha256Treehash_eq settable t hv hg attrs hc
+
+/-- the hypothesis of the previous theorems is satisfiable by every consistent node, with no attributes -/
+theorem python_eq_treeHash_fresh (settable : Nat → Bool) (t : NTree) (hv : t.Valid) (hc : Consistent t) :
+    ∃ attrs', pySha256Treehash settable [] t = .ok (treeHash t.erase, attrs') := by
+  obtain ⟨H, hg⟩ := consistent_good hc
+  obtain ⟨a, e, _⟩ := pySha256Treehash_eq settable t hv hg [] (cacheOK_nil H)
+  exact ⟨a, e⟩
 
 end Clvm.Props.C22
